@@ -545,7 +545,8 @@ def run(ctx):
     # ---------------- R06m RS-style planners as value functions
     r = ctx.rule('R06m', 'Reed-Solomon planners: the answer is the first k indexes that are neither requested nor excluded; an error iff fewer than k remain',
                  'a count of list entries instead of distinct indexes refuses satisfiable requests with overlapping lists; a wrong scan names unusable fragments')
-    rule_rs_planner_values(ctx, P, r, ('@backend_liberasurecode_rs_vand', '@backend_isa_l_rs_vand', '@backend_isa_l_rs_cauchy'))
+    rule_rs_planner_values(ctx, P, r, ('@backend_liberasurecode_rs_vand', '@backend_isa_l_rs_vand', '@backend_isa_l_rs_cauchy',
+                                       '@backend_jerasure_rs_vand', '@backend_jerasure_rs_cauchy'))     # the Jerasure adapters plan the same way
     r.require_min(2)
 
     # ---------------- R06k a shortcut that takes a parity equation as it is must find no excluded member in it
